@@ -101,7 +101,8 @@ def run(c):
         return dict({"script": d + "/script", "dir": d + "/d", "out": d + "/out"}, **kw)
 
     for b in range(nbatch):
-        batches.append({"id": b, "parallel": 8, "runs": [add_run(*gen_script(r, nid)) for _ in range(per)]})
+        # the configured error of a ban changes from batch to batch (EACCES, ENOENT, EPERM, EACCES again, ...)
+        batches.append({"id": b, "parallel": 8, "ban_ret": [0, 2, 1, 13, 38][b % 5], "runs": [add_run(*gen_script(r, nid), ban_ret=[13, 2, 1, 13, 38][b % 5]) for _ in range(per)]})
     # kill-verdict stress: the killed syscall must never take effect, whatever the scheduling
     stress = []
     for i in range(160 if c.quick() else 1600):
@@ -237,7 +238,7 @@ def run(c):
                     continue
                 if d == "k":
                     c.finding_or_violation(cz("a killed syscall returned to the program", ret=ret), dict(rep, syscall_id=i), klass="kill-returned")
-                elif d == "b" and (ret, en) != (-1, 13):
+                elif d == "b" and (ret, en) != (-1, kw.get("ban_ret", 13)):
                     c.finding_or_violation(cz("a banned syscall does not return the configured error", ret=ret, errno=en), dict(rep, syscall_id=i), klass="banret")
                 elif d == "a":
                     want = (-1, 17) if pre else (0, 0)
